@@ -62,6 +62,9 @@ var impls = map[string]func(string) string{
 	"sftp.store":      implSftpStore,
 	"sftp.get":        implSftpGet,
 	"sftp.has":        implSftpHas,
+	"mtree.line":      implMtreeLine,
+	"mtree.parse":     implMtreeParse,
+	"mtree.name":      implMtreeName,
 }
 
 type replayFile struct {
